@@ -11,7 +11,7 @@ import os
 from vlib.common import Check, rng, run_case, pmap, workdir, cleanup, short
 
 CLASSES = ['PersistentThreadWorker', 'PersistentProcessWorker', 'PersistentRemoteWorker']
-STATES = ['never-used', 'results-unread', 'inputs-queued', 'closed', 'died-by-exception', 'killed', 'uncooperative', 'busy', 'slow-exit', 'slow-results']
+STATES = ['never-used', 'results-unread', 'inputs-queued', 'closed', 'died-by-exception', 'killed', 'uncooperative', 'busy', 'slow-exit', 'slow-results', 'died-by-unrebuildable-exception']
 
 
 def kind_of(cls):
@@ -68,6 +68,10 @@ def case(spec, log):
             time.sleep(0.2)
         elif state == 'died-by-exception':
             enq(kind='raise')
+            time.sleep(0.4)
+        elif state == 'died-by-unrebuildable-exception':
+            # nobody looks at error/result/has_error before restart()
+            enq(kind='raise2')
             time.sleep(0.4)
         elif state == 'killed':
             if own:
@@ -200,7 +204,7 @@ def judge(chk, spec, res):
 def run(tier):
     thorough = tier == 'thorough'
     chk = Check('C17', 'exploration', tier,
-                'states at restart {never used, results unread, inputs queued, closed, died by exception, killed by signal, uncooperative target, busy, slow exit, results still arriving (slow to rebuild)} x 1-3 consecutive restarts x thread/process/remote x {own pipe, caller-supplied Pipe}; '
+                'states at restart {never used, results unread, inputs queued, closed, died by exception, died by an exception that cannot be rebuilt in the parent, killed by signal, uncooperative target, busy, slow exit, results still arriving (slow to rebuild)} x 1-3 consecutive restarts x thread/process/remote x {own pipe, caller-supplied Pipe}; '
                 'distinct non-trivial = distinct (class, state, restarts, pipe, between-hop states)')
     r = rng('c17')
     jobs = []
